@@ -802,3 +802,256 @@ Proof.
     + exact Lb.
     + apply joined_set_nth with (w := MWHold i0 xs); auto. left; discriminate.
 Qed.
+
+Lemma mlive_step cfg hist s e s' : mcfg_ok cfg -> MInv cfg hist s -> MLive cfg s -> mstep cfg s e = Some s' -> MLive cfg s'.
+Proof.
+  intros Ok MI L H. destruct e; try (eapply mlive_rest; eauto; exact Logic.I). eapply mlive_start; eauto.
+Qed.
+
+Lemma mlive_init cfg hist : mcfg_ok cfg -> MLive cfg (minit cfg hist).
+Proof.
+  intros [Ow Oc]. unfold minit. destruct (m_kind cfg) eqn:K; constructor; unfold new_ok, joined_ok; simpl; rewrite ?K; auto; try discriminate.
+  - left. apply repeat_length.
+  - rewrite repeat_length. split; auto. intros j w Hj. apply nth_error_repeat in Hj. subst. split; auto. lia.
+  - exists [], 0. simpl. rewrite alive_repeat_new. repeat split; auto. contradiction.
+  - intros j w Hj. destruct j; discriminate.
+  - exists [], 0. simpl. repeat split; auto. contradiction.
+  - intros _ j w Hj. destruct j; discriminate.
+Qed.
+
+Record MAll (cfg : mcfg) (hist : list (list Z * nat)) (s : mstate) : Prop := {
+  ma_inv : MInv cfg hist s; ma_live : MLive cfg s; ma_x : exitish cfg (ms_main s) = true -> ms_todo s = [];
+}.
+Lemma mall_step cfg hist s e s' : mcfg_ok cfg -> MAll cfg hist s -> mstep cfg s e = Some s' -> MAll cfg hist s'.
+Proof.
+  intros Ok [I L X] H. constructor; [eapply minv_step; eauto | eapply mlive_step; eauto | eapply xinv_step; eauto].
+Qed.
+Lemma mall_init cfg hist : mcfg_ok cfg -> Forall mact_ok hist -> MAll cfg hist (minit cfg hist).
+Proof.
+  intros Ok Hh. constructor; [apply minv_init; auto | apply mlive_init; auto |]. unfold minit, exitish. simpl. destruct (m_kind cfg); discriminate.
+Qed.
+Theorem mall_run cfg hist sched : mcfg_ok cfg -> Forall mact_ok hist -> MAll cfg hist (mrun cfg (minit cfg hist) sched).
+Proof.
+  intros Ok Hh. unfold mrun.
+  assert (G : forall sched s, MAll cfg hist s -> MAll cfg hist (fold_left (fun s e => match mstep cfg s e with Some s' => s' | None => s end) sched s)).
+  { clear sched. induction sched as [|e r IH]; intros s A; simpl; auto. apply IH. destruct (mstep cfg s e) eqn:E; auto. eapply mall_step; eauto. }
+  apply G. apply mall_init; auto.
+Qed.
+
+(* ================================================================== no deadlock *)
+Definition menabled (cfg : mcfg) (s : mstate) (e : mevent) : Prop := mstep cfg s e <> None.
+
+Lemma mw_progress cfg s k w : nth_error (ms_procs s) k = Some w -> mdead w = false -> w <> MWNew -> ms_workq s <> [] ->
+  exists e, menabled cfg s e.
+Proof.
+  intros N D Hn Q. destruct w; try discriminate; try contradiction.
+  - exists (MWTake k). unfold menabled. simpl. rewrite N. destruct (ms_workq s) as [|[|] ?]; [contradiction | discriminate | discriminate].
+  - exists (MWRes k). unfold menabled. simpl. rewrite N. discriminate.
+Qed.
+Lemma mheld_worker ps : mheld ps <> [] -> exists k i xs, nth_error ps k = Some (MWHold i xs).
+Proof.
+  induction ps as [|p ps IH]; intros H; [contradiction|]. unfold mheld in H. simpl in H. fold (mheld ps) in H.
+  destruct p; try (simpl in H; destruct (IH H) as (k & i & xs & Hk); exists (S k), i, xs; auto; fail).
+  exists 0, i, xs. reflexivity.
+Qed.
+
+Lemma moutstanding cfg s : MCore cfg s -> MLive cfg s -> ms_main s = MmFinal -> ms_resq s = [] -> ms_finished s < ms_cnt s ->
+  q_entries (ms_workq s) <> [] \/ mheld (ms_procs s) <> [].
+Proof.
+  intros C L M R Hf.
+  assert (En : mentries s = q_entries (ms_workq s) ++ mheld (ms_procs s) ++ ms_buffer s) by (unfold mentries; rewrite R; reflexivity).
+  destruct (mc_pi _ _ C) as (pi & P1 & P2). destruct (m_kind cfg) eqn:K.
+  - destruct P2 as (_ & F & W). subst pi. rewrite seq_length in F.
+    assert (Fb : buf_get (ms_buffer s) (ms_wait s) = None) by (apply (ml_bufw _ _ L K); rewrite M; reflexivity).
+    assert (Hin : In (ms_wait s) (map fst (mentries s))).
+    { assert (H : In (ms_wait s) (seq 0 (ms_wait s) ++ map fst (mentries s))).
+      { eapply Permutation_in; [symmetry; exact P1 | apply in_seq; lia]. }
+      apply in_app_or in H. destruct H as [H|H]; auto. apply in_seq in H. lia. }
+    rewrite En, !map_app in Hin. apply in_app_or in Hin. destruct Hin as [Hin|Hin].
+    + left. intros E. rewrite E in Hin. exact Hin.
+    + apply in_app_or in Hin. destruct Hin as [Hin|Hin].
+      * right. intros E. rewrite E in Hin. exact Hin.
+      * exfalso. apply buf_get_none in Fb. apply Fb. exact Hin.
+  - destruct P2 as (-> & F). simpl in P1. apply Permutation_length in P1. rewrite map_length, seq_length, En, !app_length in P1.
+    destruct (q_entries (ms_workq s)); [|left; discriminate]. right. intros E. rewrite E in P1. simpl in P1. lia.
+Qed.
+
+Theorem fmap_deadlock_free cfg hist s : mcfg_ok cfg -> MAll cfg hist s -> ms_main s <> MmDone -> exists e, menabled cfg s e.
+Proof.
+  intros [Ow Oc] [MI L X] Hnd.
+  destruct (ms_main s) eqn:M; try contradiction.
+  - (* MmEnter *)
+    pose proof (ml_new _ _ L) as Ln. rewrite M in Ln. destruct Ln as [Hk Ln].
+    destruct (nth_error (ms_procs s) k) as [w|] eqn:N; [|apply nth_error_None in N; lia].
+    assert (w = MWNew) by (apply (Ln k w N); lia). subst w.
+    exists MStart. unfold menabled. simpl. rewrite M, N. discriminate.
+  - exists MNext. unfold menabled. simpl. rewrite M. destruct (ms_todo s) as [|[d c] ?]; [|destruct (m_kind cfg)]; discriminate.
+  - (* MmPut *)
+    pose proof (mi_core _ _ _ MI) as C. rewrite M in C. simpl in C. pose proof (mc_pos _ _ C) as Pos. rewrite M in Pos. destruct Pos as (_ & _ & Hr).
+    destruct rest as [|x r]; [contradiction|].
+    destruct (full (m_cap cfg) (ms_workq s)) eqn:Fu.
+    2: { exists MPut. unfold menabled. simpl. rewrite M, Fu. discriminate. }
+    assert (Q : ms_workq s <> []).
+    { unfold full in Fu. destruct (m_cap cfg) as [c|] eqn:Cc; [|discriminate]. specialize (Oc c eq_refl). apply Nat.leb_le in Fu.
+      intros E. rewrite E in Fu. simpl in Fu. lia. }
+    assert (Len : length (ms_procs s) = m_workers cfg) by (apply mlive_len; auto; rewrite M; discriminate).
+    destruct (ml_workq _ _ L) as (cs & m & Hq & Hcs & Hal & Hf). rewrite M in Hal. simpl in Hal.
+    assert (m = 0) by (pose proof (alive_le (ms_procs s)); lia). subst m. simpl in Hq. rewrite app_nil_r in Hq.
+    destruct (nth_error (ms_procs s) 0) as [w|] eqn:N; [|apply nth_error_None in N; lia].
+    apply (mw_progress cfg s 0 w N); auto.
+    + apply (Hf ltac:(rewrite <- Hq; exact Q) 0 w N).
+    + pose proof (ml_new _ _ L) as Ln. rewrite M in Ln. apply (Ln 0 w N).
+  - exists MEmpty. unfold menabled. simpl. rewrite M. discriminate.
+  - (* MmNones *)
+    pose proof (ml_nones _ _ L n M) as Hn. destruct n as [|n]; [lia|].
+    destruct (full (m_cap cfg) (ms_workq s)) eqn:Fu.
+    2: { exists MNone. unfold menabled. simpl. rewrite M, Fu. discriminate. }
+    assert (Q : ms_workq s <> []).
+    { unfold full in Fu. destruct (m_cap cfg) as [c|] eqn:Cc; [|discriminate]. specialize (Oc c eq_refl). apply Nat.leb_le in Fu.
+      intros E. rewrite E in Fu. simpl in Fu. lia. }
+    destruct (ml_workq _ _ L) as (cs & m & Hq & Hcs & Hal & Hf). rewrite M in Hal. simpl in Hal.
+    pose proof (ml_new _ _ L) as Ln. rewrite M in Ln. unfold new_ok in Ln.
+    destruct (alive_pos (ms_procs s)) as (k & w & N & D); [lia|].
+    apply (mw_progress cfg s k w N D); auto. apply (Ln k w N).
+  - (* MmFinal *)
+    destruct (ms_finished s <? ms_cnt s) eqn:Lt.
+    2: { exists MEnd. unfold menabled. simpl. rewrite M, Lt. destruct (m_kind cfg); discriminate. }
+    apply Nat.ltb_lt in Lt.
+    destruct (ms_resq s) as [|[i xs|] q] eqn:R.
+    + pose proof (mi_core _ _ _ MI) as C. rewrite M in C. simpl in C.
+      assert (Len : length (ms_procs s) = m_workers cfg) by (apply mlive_len; auto; rewrite M; discriminate).
+      pose proof (ml_new _ _ L) as Ln. rewrite M in Ln. unfold new_ok in Ln.
+      destruct (moutstanding cfg s C L M R Lt) as [Hq|Hh].
+      * destruct (ml_workq _ _ L) as (cs & m & Hq' & Hcs & Hal & Hf).
+        assert (Hc : cs <> []).
+        { intros ->. simpl in Hq'. rewrite Hq' in Hq. apply Hq. clear. induction m; simpl; auto. }
+        destruct (nth_error (ms_procs s) 0) as [w|] eqn:N; [|apply nth_error_None in N; lia].
+        apply (mw_progress cfg s 0 w N); auto; [apply (Hf Hc 0 w N) | apply (Ln 0 w N) | apply q_entries_nonnil; exact Hq].
+      * destruct (mheld_worker _ Hh) as (k & i & xs & N). exists (MWRes k). unfold menabled. simpl. rewrite N. discriminate.
+    + exists MGet. unfold menabled. simpl. rewrite M, R. apply Nat.ltb_lt in Lt. rewrite Lt. discriminate.
+    + exfalso. pose proof (ml_resq _ _ L) as Lr. rewrite R in Lr. inversion Lr; subst. contradiction.
+  - (* MmJoin *)
+    pose proof (ml_join _ _ L k M) as Hk.
+    destruct (nth_error (ms_procs s) k) as [w|] eqn:N; [|apply nth_error_None in N; lia].
+    pose proof (ml_new _ _ L) as Ln. rewrite M in Ln. unfold new_ok in Ln.
+    destruct w eqn:W.
+    + exfalso. apply (Ln k MWNew N). reflexivity.
+    + destruct (ml_workq _ _ L) as (cs & m & Hq & Hcs & Hal & Hf). rewrite M in Hal. simpl in Hal.
+      assert (1 <= alive (ms_procs s)) by (eapply alive_ge1; eauto).
+      apply (mw_progress cfg s k MWIdle N); auto; try discriminate. rewrite Hq. intros E. apply app_eq_nil in E. destruct E as [_ E].
+      destruct m; [lia | discriminate].
+    + exists (MWRes k). unfold menabled. simpl. rewrite N. discriminate.
+    + exists MJoin. unfold menabled. simpl. rewrite M, N. destruct (S k <? length (ms_procs s)); [|destruct (m_kind cfg)]; discriminate.
+Qed.
+
+(* ================================================================== termination measure *)
+Definition mact_pot (cfg : mcfg) (a : list Z * nat) : nat := 14 * length (fst a) + 5 * m_workers cfg + 7.
+Definition mw_pot (w : mwpc) : nat := match w with MWNew => 3 | MWIdle => 2 | MWHold _ _ => 13 | MWDead => 0 end.
+Definition mwsum (ps : list mwpc) : nat := list_sum (map mw_pot ps).
+Definition mm_pot (cfg : mcfg) (s : mstate) : nat :=
+  let W := m_workers cfg in let B := 2 * W + 5 in let X := if m_kind cfg then 0 else B in
+  match ms_main s with
+  | MmDone => 0 | MmIdle => B
+  | MmJoin k => X + (W - k) + 1
+  | MmNones n => X + n + W + 4
+  | MmFinal => B + W + 3
+  | MmDrain _ rest => 14 * length rest + B + 2 * W + 6
+  | MmPut _ rest => 14 * length rest + B + 2 * W + 5
+  | MmEnter _ => if m_kind cfg then B + 1 else 14 * length (ms_data s) + B + 2 * W + 6
+  end.
+Definition mmu (cfg : mcfg) (s : mstate) : nat :=
+  list_sum (map (mact_pot cfg) (ms_todo s)) + mm_pot cfg s + mwsum (ms_procs s) + wq_pot (ms_workq s) + 4 * length (ms_resq s).
+
+Lemma mwsum_set_nth ps k w w' : nth_error ps k = Some w -> mwsum (set_nth k w' ps) + mw_pot w = mwsum ps + mw_pot w'.
+Proof.
+  unfold mwsum. revert k; induction ps as [|p ps IH]; intros [|k] H; simpl in *; try discriminate.
+  - injection H as ->. lia.
+  - specialize (IH k H). lia.
+Qed.
+Lemma mwsum_repeat_new n : mwsum (repeat MWNew n) = 3 * n.
+Proof. unfold mwsum. induction n; simpl in *; lia. Qed.
+
+Local Arguments Nat.sub : simpl never.
+Theorem mmu_step cfg s e s' : (forall i rest, ms_main s = MmPut i rest -> 1 <= ms_chunk s) ->
+  (forall k, ms_main s = MmJoin k -> length (ms_procs s) = m_workers cfg) ->
+  mstep cfg s e = Some s' -> mmu cfg s' < mmu cfg s.
+Proof.
+  intros Hc Hl H.
+  destruct e; mstep_cases H; injection H as <-; unfold mmu, mm_pot; simpl;
+    repeat match goal with |- context [absorb ?k ?st ?i ?xs] =>
+      destruct (absorb_frame k st i xs) as (F1 & F2 & F3 & F4 & F5 & F6 & F7 & F8 & F9); rewrite ?F1, ?F2, ?F4, ?F7, ?F8, ?F9; clear F1 F2 F3 F4 F5 F6 F7 F8 F9 end;
+    simpl; rewrite ?app_length, ?wq_pot_app, ?set_nth_length, ?mwsum_repeat_new;
+    repeat match goal with Hq : _ = _ |- _ => rewrite Hq end; simpl;
+    try (match goal with Hn : nth_error (ms_procs s) ?k = Some ?w |- context [mwsum (set_nth ?k ?x _)] =>
+           pose proof (mwsum_set_nth _ k w x Hn) as Hs; simpl in Hs end);
+    unfold wq_pot, first_pc, after_loop; simpl; try lia;
+    repeat match goal with |- context [match ?d with [] => _ | _ :: _ => _ end] => destruct d eqn:? end;
+    repeat match goal with Hk : m_kind cfg = _ |- _ => rewrite Hk end; unfold mact_pot; simpl; try lia;
+    try (match goal with |- context [skipn (ms_chunk s) (?z :: ?l)] =>
+           pose proof (skipn_length (ms_chunk s) (z :: l)) as Hk; simpl in Hk; specialize (Hc _ _ eq_refl) end; lia);
+    try (specialize (Hl _ eq_refl); match goal with Hb : (_ <? _) = true |- _ => apply Nat.ltb_lt in Hb end; lia);
+    try (destruct (m_kind cfg); simpl; lia).
+Qed.
+
+Lemma mall_measure cfg hist s e s' : MAll cfg hist s -> mstep cfg s e = Some s' -> mmu cfg s' < mmu cfg s.
+Proof.
+  intros [MI L X] H. apply (mmu_step cfg s e s'); auto.
+  - intros i rest M. pose proof (mi_core _ _ _ MI) as C. rewrite M in C. simpl in C. apply (mc_chunk _ _ C).
+  - intros k M. apply mlive_len; auto; rewrite M; discriminate.
+Qed.
+
+Fixpoint mdrive (cfg : mcfg) (pick : mstate -> mevent) (n : nat) (s : mstate) : mstate :=
+  match n with
+  | O => s
+  | S n' => match mstep cfg s (pick s) with Some s' => mdrive cfg pick n' s' | None => s end
+  end.
+
+(* every scheduler that picks an enabled event whenever there is one drives every history of calls to its end, with the results *)
+Theorem fmap_terminates cfg hist pick : mcfg_ok cfg -> Forall mact_ok hist ->
+  (forall s, (exists e, menabled cfg s e) -> mstep cfg s (pick s) <> None) ->
+  let s := mdrive cfg pick (mmu cfg (minit cfg hist)) (minit cfg hist) in
+  ms_main s = MmDone /\ ms_done s = map fst hist /\ ms_err s = false.
+Proof.
+  intros Ok Hh Pe.
+  assert (G : forall n s, MAll cfg hist s -> mmu cfg s <= n ->
+             ms_main (mdrive cfg pick n s) = MmDone /\ MAll cfg hist (mdrive cfg pick n s)).
+  { induction n as [|n IH]; intros s A Hm; simpl.
+    - split; auto. destruct (ms_main s) eqn:M; auto; exfalso;
+        (destruct (fmap_deadlock_free cfg hist s Ok A) as (e & He); [rewrite M; discriminate|]);
+        unfold menabled in He; (destruct (mstep cfg s e) as [s'|] eqn:E; [|contradiction]);
+        pose proof (mall_measure cfg hist s e s' A E); lia.
+    - destruct (mstep cfg s (pick s)) as [s'|] eqn:E.
+      + apply IH; [eapply mall_step; eauto|]. pose proof (mall_measure cfg hist s (pick s) s' A E). lia.
+      + split; auto. destruct (ms_main s) eqn:M; auto; exfalso; apply (Pe s); auto;
+          apply (fmap_deadlock_free cfg hist s Ok A); rewrite M; discriminate. }
+  intros s. destruct (G (mmu cfg (minit cfg hist)) (minit cfg hist)) as [M A]; [apply mall_init; auto | lia |]. fold s in M, A.
+  destruct A as [[Ie _ _ (done & Hsp & Hdn)] _ X]. split; auto. split; auto.
+  rewrite M in Hsp, X. unfold active in Hsp. simpl in Hsp, X. rewrite (X eq_refl), app_nil_r in Hsp. rewrite Hsp. exact Hdn.
+Qed.
+
+Theorem fmap_no_deadlock cfg hist sched : mcfg_ok cfg -> Forall mact_ok hist ->
+  let s := mrun cfg (minit cfg hist) sched in ms_main s <> MmDone -> exists e, mstep cfg s e <> None.
+Proof. intros Ok Hh s Hn. apply (fmap_deadlock_free cfg hist s Ok); auto. apply mall_run; auto. Qed.
+
+Theorem fmap_measure cfg hist sched e s' : mcfg_ok cfg -> Forall mact_ok hist ->
+  let s := mrun cfg (minit cfg hist) sched in mstep cfg s e = Some s' -> mmu cfg s' < mmu cfg s.
+Proof. intros Ok Hh s H. apply (mall_measure cfg hist s e s'); auto. apply mall_run; auto. Qed.
+
+(* a scheduler of that kind exists *)
+Definition mall_events (n : nat) : list mevent :=
+  [MStart; MNext; MPut; MTry; MGet; MEnd; MNone; MJoin; MEmpty] ++ flat_map (fun k => [MWTake k; MWRes k]) (seq 0 n).
+Definition mpick_first (cfg : mcfg) (s : mstate) : mevent :=
+  match find (fun e => match mstep cfg s e with Some _ => true | None => false end) (mall_events (length (ms_procs s))) with
+  | Some e => e | None => MStart end.
+Lemma mpick_first_enabled cfg s : (exists e, menabled cfg s e) -> mstep cfg s (mpick_first cfg s) <> None.
+Proof.
+  intros (e & He). unfold mpick_first.
+  destruct (find _ (mall_events (length (ms_procs s)))) as [e'|] eqn:F.
+  - apply find_some in F. destruct F as [_ F]. destruct (mstep cfg s e'); [discriminate | discriminate].
+  - exfalso. assert (Hin : In e (mall_events (length (ms_procs s)))).
+    { unfold mall_events. unfold menabled in He.
+      destruct e; try (apply in_or_app; left; simpl; tauto); apply in_or_app; right; apply in_flat_map; exists k;
+        (split; [apply in_seq; simpl in He; destruct (nth_error (ms_procs s) k) eqn:N; [|contradiction];
+                 assert (k < length (ms_procs s)) by (apply nth_error_Some; congruence); lia | simpl; auto]). }
+    pose proof (find_none _ _ F e Hin) as H. unfold menabled in He. simpl in H. destruct (mstep cfg s e); [discriminate | contradiction].
+Qed.
